@@ -8,6 +8,7 @@ import tempfile
 import numpy as np
 
 from pvmon import netgen
+from pvmon.compare import snapshot, diff_snapshots, nonunique_physics
 from pvmon.monitors import Obs
 from pvmon.props.common import rng_for, run_pipeflow
 
@@ -236,7 +237,7 @@ def make_net(case, obs):
         obs.count("nets_with_user_pump")
     if rng.random() < 0.5:
         pp.set_user_pf_options(net, friction_model="colebrook", tol_p=1e-6, max_iter_hyd=77)
-    opts = {"iter": 150, "mode": "sequential" if case["kind"] == "heat" else "hydraulics"}
+    opts = dict(netgen.TIGHT, mode="sequential" if case["kind"] == "heat" else "hydraulics")   # tight: both sides are solutions, not iterates
     with_results = rng.random() < 0.7
     if with_results:
         out, _ = run_pipeflow(net, opts)
@@ -336,9 +337,17 @@ def run_case(case, ctx):
                 elif o1 == "ok":
                     for k in [k for k in n1.keys() if isinstance(k, str) and k.startswith("res_") and hasattr(n1[k], "columns") and len(n1[k])]:
                         a, b = n1[k], net2[k].loc[n1[k].index]
-                        eq = same if path == "pickle" else (lambda u, v: same(u, v) or nearly(u, v, 1e-7) or (abs(float(u)) < 1e-10 and abs(float(v)) < 1e-10))
-                        if list(a.columns) != list(b.columns) or not all(eq(u, v) for u, v in zip(a.values.ravel(), b.values.ravel())):
+                        if list(a.columns) != list(b.columns) or (path == "pickle" and not all(same(u, v) for u, v in zip(a.values.ravel(), b.values.ravel()))):
                             obs.violate("io_pipeflow_results_differ", "%s: %s differs between original and loaded net" % (path, k), path=path, table=k)
+                    if path != "pickle":
+                        # text formats round inputs at the 15th decimal (listed finding): the results are compared the way two
+                        # runs are compared everywhere else, with the conditioning rules of pvmon.compare
+                        sa, sb = snapshot(n1), snapshot(net2)
+                        if not (nonunique_physics(sa) or nonunique_physics(sb)):
+                            d, nv, md = diff_snapshots(sa, sb, rtol=1e-7, atol=1e-9)
+                            if d:
+                                obs.violate("io_pipeflow_results_differ", "%s: %d of %d result values differ between original and loaded net, first res_%s[%s].%s %s"
+                                            % (path, len(d), nv, d[0][0], d[0][1], d[0][2], d[0][3]), path=path, table="res_" + str(d[0][0]))
                             break
             sample = {"case": case, "net": netgen.spec_summary(spec), "paths": PATHS, "tables": sorted(k for k in net.keys() if hasattr(net[k], "columns"))[:12]}
     finally:
